@@ -621,7 +621,7 @@ static inline void gen_str_plan(Rng &r, Plan &p, bool for_faults, int tier)
     p.set("alloc_move", r.chance(1, 2)); p.set("alloc_junk", r.chance(3, 4)); p.set("alloc_reuse", r.chance(1, 4));
     p.set("junk_seed", (int64_t)r.below(256));
     p.set("alloc_default", r.chance(1, 6));
-    static const int64_t ML[] = {8, 16, 40, 200, 600};
+    static const int64_t ML[] = {8, 16, 40, 200, 600, 40, 200, 6000};
     p.set("maxlen", r.pick(ML));
     p.set("heap", r.chance(1, 2));
     bool en[S__COUNT];
